@@ -11,3 +11,18 @@ def _driver(focus=None):
 CORR = {"driver": _driver()}
 for _f in ("fault", "restart", "scaler", "upd", "cb", "budget"):
     CORR["driver:" + _f] = _driver(_f)
+
+
+def _bench(tier):
+    """Translator validation for benchmarks.py: the intermediate representation the Coq text is printed from is
+    evaluated in Python floats (Coq list semantics) and compared with the real functions."""
+    import os
+    from harness import translate_bench as tb
+    from harness.common import Failure, REPO
+    trials = 25 if tier == "quick" else 400
+    errs = tb.validate(os.path.join(REPO, "lbfgsb", "benchmarks.py"), trials=trials)
+    fails = [Failure("translator", "benchmarks translator disagrees with the real function: " + e, signature="C19 translator") for e in errs[:3]]
+    return fails, dict(functions=16, trials_per_function_and_dimension=trials, dimensions="0..8", rtol=1e-12, disagreements=len(errs))
+
+
+CORR["bench"] = _bench
